@@ -65,7 +65,11 @@ def judge(args):
     tree = os.path.join(work, "xstate_statemachine")
     res = {"id": variant["id"], "status": "ok", "detail": [], "note": variant.get("note", "")}
     try:
-        shutil.copytree(base, tree)
+        if variant.get("raw"):
+            # mutation-style variant: a single-node edit of the original source text (see selftest/mutation_variants.py)
+            shutil.copytree(SRC, tree, ignore=shutil.ignore_patterns("__pycache__"))
+        else:
+            shutil.copytree(base, tree)
         for rel, old, new in variant["edits"]:
             path = os.path.join(tree, rel)
             with open(path, encoding="utf-8") as fh:
@@ -119,6 +123,11 @@ def main():
     ap.add_argument("--json", default=os.path.join(HERE, "results.json"))
     a = ap.parse_args()
     from variants import VARIANTS
+    try:
+        from mutation_variants import MUTATION_VARIANTS
+        VARIANTS = VARIANTS + MUTATION_VARIANTS
+    except ImportError:
+        pass
     vs = [v for v in VARIANTS if not a.only or a.only in v["id"] or a.only in v["fire"] or a.only in v["silent"]]
     base_root = tempfile.mkdtemp(prefix="xsm_selftest_base_")
     base = os.path.join(base_root, "xstate_statemachine")
